@@ -27,7 +27,10 @@ TRUSTED = ["Coq 8.16.1 kernel", "extraction (ExtrOcamlBasic only; Z/positive/nat
            "SD/GR convention layer: only the NDG -> SD data and RI-vgroup -> RI links are interpreted by h4read"]
 ASSUMPTIONS = ["files are produced by this suite's generators; sizes < 2^31 (C20)",
                "the file is not modified between the library's close and h4read's read",
-               "JPEG / IMCOMP / szip are outside the equality claim"]
+               "JPEG / IMCOMP / szip are outside the equality claim",
+               "no append through a descriptor that has an alias made by Hdupdd (the library extends the element in "
+               "place and the alias then covers a prefix of it: overlapping, unequal extents by design; C01 excludes "
+               "writes through aliased descriptors for the same reason)"]
 
 NT = {20: 1, 21: 1, 22: 2, 23: 2, 24: 4, 25: 4, 5: 4, 6: 8, 4: 1}
 
@@ -68,6 +71,7 @@ class Gen:
         self.vg = 0
         self.exts = []
         self.napp = 0
+        self.aliased = set()   # elements that have an alias: never appended to (see ASSUMPTIONS)
         self.touched_after_close = {}
 
     def newref(self, tag):
@@ -110,8 +114,9 @@ class Gen:
                 L.append("lbs %d %d %d %d %d %d %s" % (F, tag, ref, bl, nb, nw, " ".join(ws)))
                 self.any.append((tag, ref))
             elif k < 0.36:
-                if self.plain and self.napp < 2:
-                    t, rf = r.choice(self.plain)
+                cand = [e for e in self.plain if e not in self.aliased]
+                if cand and self.napp < 2:
+                    t, rf = r.choice(cand)
                     L.append("app %d %d %d %s" % (F, t, rf, hexs(rbytes(r, r.choice([1, 3, 8])))))
                     self.napp += 1
             elif k < 0.42:
@@ -152,6 +157,7 @@ class Gen:
                     t, rf = r.choice(self.plain)
                     nr = self.newref(t)
                     L.append("dup %d %d %d %d %d" % (F, t, nr, t, rf))
+                    self.aliased.add((t, rf))
             elif k < 0.72:
                 cand = [e for e in self.plain if e not in self.any[:0]]
                 if cand and r.random() < 0.5:
